@@ -65,7 +65,8 @@ pub fn passes(tier: &str) -> Vec<Pass> {
         let mut a = alpha();
         a.jrot = true;
         v.push(mkp("sealed-journal replay over filtered tables".into(), d.clone(), a.clone(), FilterSpec { assign: [true, false, false], kind: 3 }, "sealed_journal_x_half_flushed", if q { 3 } else { 4 }, 2, if q { 4.0 } else { 150.0 }));
-        v.push(mkp("journal eviction with an unflushed kept item".into(), d.clone(), a, FilterSpec { assign: [true, false, false], kind: 1 }, "x_unflushed_y_rotated", if q { 3 } else { 4 }, 2, if q { 4.0 } else { 150.0 }));
+        // (a third, idle keyspace z exists: watermark collection must not stop at a keyspace with empty memtables)
+        v.push(mkp("journal eviction with an unflushed kept item".into(), Cfg { nks: 3, ..d.clone() }, a, FilterSpec { assign: [true, false, false], kind: 1 }, "x_unflushed_y_rotated", if q { 3 } else { 4 }, 2, if q { 4.0 } else { 150.0 }));
     }
     v.push(mk("narrow-big/blob/kind3".into(), Cfg { nks: 1, blob: true, ..d.clone() }, alpha_narrow(true), FilterSpec { assign: [true, false, false], kind: 3 }, if q { 4 } else { 6 }, 3, if q { 4.0 } else { 120.0 }));
     v
